@@ -10,8 +10,8 @@ from core import corr, oracle
 from lib import coop, concstack
 
 PID = "C11"
-GEN = ["conccfg", "sendbufcfg"]
-LEAN_MODULES = ["YowsupVerif.Props.C11"]
+GEN = ["conccfg", "sendbufcfg", "stalewritecfg"]
+LEAN_MODULES = ["YowsupVerif.Props.C11", "YowsupVerif.Props.C11Stale"]
 RULE = ("2-4 sender threads with 1-4 stanzas each through the real coder, noise (counting cipher stand-in), segments layers; schedules chosen at random at "
         "every scheduling point (lock acquire / release, encryption, stream put / get, network write); thorough: additionally ALL schedules of 2 threads x 1-2 "
         "stanzas by depth-first enumeration.  distinct = distinct (work, schedule).")
@@ -50,6 +50,15 @@ def cases(chk):
             return sid[0]
         yield "preempt", {"work": [[fresh2() for _i in range(r.randint(1, 3))] for _t in range(nt)], "seed": r.randrange(1 << 30), "prob": r.choice([0.05, 0.2, 0.5]),
                           "entry": r.choice(["top", "coder", "coder"])}
+    # senders stalled inside their send while the connection is lost and a new login completes
+    for _ in range(chk.scale(120, 3000)):
+        nt = r.randint(1, 3)
+        sid = [0]
+
+        def fresh3():
+            sid[0] += 1
+            return sid[0]
+        yield "reconnect", {"work": [[fresh3() for _i in range(r.randint(1, 3))] for _t in range(nt)], "delay": r.randint(0, 12), "seed": r.randrange(1 << 30)}
     for _ in range(chk.scale(60, 1500)):
         yield "dispatcher", {"frames": [r.randint(1, 40) for _i in range(r.randint(1, 5))], "flushes": r.randint(1, 6), "seed": r.randrange(1 << 30)}
     if not chk.quick():
@@ -95,7 +104,9 @@ def model_schedule(c, L):
     for idx, tag in c.trace:
         if isinstance(tag, tuple):
             kind, lock = tag
-            if lock.owner is L["coder"] or lock.owner is L["noise"]:
+            # the locks the model knows: the layers' own toLower locks.  (The noise layer's stream lock — check-and-write against the replacement
+            # of the stream at a disconnect — is taken right before the layer lock and released right after it: it only removes interleavings.)
+            if lock is getattr(L["coder"], "lock", None) or lock is getattr(L["noise"], "lock", None):
                 out.append(idx)
         elif tag in ("enc", "put", "get", "write"):
             out.append(idx)
@@ -246,8 +257,186 @@ def run_dispatcher(chk, case):
     return fails
 
 
+class SessionTransport(object):
+    """counting cipher stand-in of ONE session: 0x02, session number, 4-byte counter, plaintext"""
+    def __init__(self, stream, session):
+        self._stream, self.session, self.counter = stream, session, 0
+
+    def send(self, data):
+        coop.log("enter")           # the sender works with THIS session's transport and stream from here on (the model's `enter`)
+        coop.point()
+        n = self.counter
+        self.counter += 1
+        coop.log("enc")
+        self._stream.write_segment(b"\x02" + bytes([self.session]) + struct.pack(">I", n) + bytes(data))
+
+    def recv(self):
+        return bytes(self._stream.read_segment()[6:])
+
+
+def _arm_session(noise, session):
+    """what a completed login leaves behind: the protocol object in transport state with this session's cipher, the stream's callback bound to
+    this attempt's stream and queue (as on_auth binds them), scheduling points at the stream's queue operations"""
+    p = noise._wa_noiseprotocol
+    p._machine.set_state("transport")
+    p._last_triggered_state = "transport"
+    stream, queue = noise._stream, noise._incoming_segments_queue
+    p._transport = SessionTransport(stream, session)
+    if not getattr(stream, "_verif_points", False):
+        stream._verif_points = True
+        orig_get = stream.get_write_segment
+
+        def write_segment(data):
+            coop.point()
+            stream._writequeue.put(data)
+            coop.log("put")
+            if stream._events_callback is not None:
+                stream._events_callback(stream.EVENT_WRITE)
+
+        def get_write_segment():
+            coop.point()
+            d = orig_get()
+            coop.log("get")
+            return d
+        stream.write_segment = write_segment
+        stream.get_write_segment = get_write_segment
+    stream.set_events_callback(lambda event: noise._handle_stream_event(event, stream, queue))
+
+
+def run_reconnect(chk, case):
+    """sender threads (an application, the keep-alive) and the network thread: while a sender may be stalled anywhere inside its send, the
+    connection is lost and a new login completes.  Whatever the schedule, the second connection carries whole frames of the SECOND session only,
+    in counter order (a frame encrypted for the lost session is of no use to the peer and breaks its counter)."""
+    import random
+    from yowsup.layers import YowLayerEvent
+    from yowsup.layers.network import YowNetworkLayer
+    from yowsup.layers.coder.encoder import WriteEncoder
+    from yowsup.layers.coder.tokendictionary import TokenDictionary
+    r = random.Random(case["seed"])
+    del coop.LOCKS[:]
+    stack, top, bottom, L = concstack.build()
+    noise = L["noise"]
+    _arm_session(noise, 1)
+    c = coop.Coop()
+    mark = []
+    refused = {}
+    for ti, stanzas in enumerate(case["work"]):
+        def body(stanzas=stanzas, ti=ti):
+            for sid in stanzas:
+                try:
+                    top.send(node_for(sid))
+                except Exception:
+                    refused[ti] = refused.get(ti, 0) + 1      # a send that hits the moment without a session is refused: that is C12's subject
+        c.spawn(body)
+
+    orig_new = noise._new_noiseprotocol
+
+    def new_protocol():
+        coop.log("swap")            # the moment the replacement takes effect (the model's `swap`)
+        mark.append(len(bottom.writes))
+        return orig_new()
+    noise._new_noiseprotocol = new_protocol
+
+    def network():
+        for _ in range(case["delay"]):
+            coop.point()
+        bottom.emitEvent(YowLayerEvent(YowNetworkLayer.EVENT_STATE_DISCONNECTED, reason="lost"))
+        _arm_session(noise, 2)
+    c.spawn(network)
+    err = None
+    try:
+        c.run(coop.chooser(r))
+    except coop.Deadlock as e:
+        err = e
+    chk.hit("reconnect:senders=%d" % len(case["work"]))
+    ctx = "senders %s, the connection is lost after %d scheduling rounds of the network thread, schedule %s" % (case["work"], case["delay"], c.choices[:60])
+    if err is not None:
+        return [oracle("C11:deadlock", "%s: %s" % (ctx, err))]
+    enc = WriteEncoder(TokenDictionary())
+    expected = dict((bytes(bytearray(enc.protocolTreeNodeToBytes(node_for(s_)))), s_) for t in case["work"] for s_ in t)
+    fails = []
+    cut = mark[0] if mark else len(bottom.writes)
+    # ---- the run on Model/StaleWrite.lean: the completed operations in their order, as a schedule of the model's threads
+    nsend = len(case["work"])
+    atomic = "atomic=true" in chk.driver.ask("conc stale 1 0")
+    slock = getattr(noise, "_stream_lock", None)
+    sched, pending_write, nwrites = [], {}, {}
+    for idx, tag in c.trace:
+        if idx < nsend:
+            if tag == "enter":
+                if pending_write.get(idx):
+                    sched.append(idx)                 # the write step of a segment that was found stale: nothing was written
+                    pending_write[idx] = False
+                sched.append(idx)                     # enter
+            elif tag == "get" and not atomic:
+                sched.append(idx)                     # check
+                pending_write[idx], nwrites[idx] = True, 0
+            elif isinstance(tag, tuple) and tag[0] == "acq" and tag[1] is slock and atomic:
+                sched += [idx, idx]                   # lock, check
+                pending_write[idx], nwrites[idx] = True, 0
+            elif tag == "write" and pending_write.get(idx):
+                nwrites[idx] += 1
+                if nwrites[idx] == 2:
+                    sched.append(idx)                 # write (header and payload reached the network)
+                    pending_write[idx] = False
+            elif isinstance(tag, tuple) and tag[0] == "rel" and tag[1] is slock and atomic:
+                if pending_write.get(idx):
+                    sched.append(idx)
+                    pending_write[idx] = False
+                sched.append(idx)                     # unlock
+        else:
+            if (isinstance(tag, tuple) and tag[1] is slock and atomic) or tag == "swap":
+                sched.append(idx)
+    for idx, p_ in sorted(pending_write.items()):
+        if p_:
+            sched.append(idx)
+    real_wire = []
+    for j in range(1, len(bottom.writes), 2):
+        pl = bottom.writes[j]
+        if pl[:1] == b"\x02":
+            real_wire.append("%d:%d" % (0 if j < cut else 1, pl[1] - 1))
+    model = chk.driver.ask("conc stale %s %s" % ("/".join(str(len(t)) for t in case["work"]) + "/-", ",".join(map(str, sched)) or "-"))
+    mwire = model.split(" wire=")[1].split(" left=")[0].split()
+    # (a refused send never entered the noise layer's write path: its steps stay unexecuted in the model's thread)
+    want_left = [str((5 if atomic else 3) * refused.get(ti, 0)) for ti in range(nsend)] + ["0"]
+    if mwire != real_wire or model.split(" left=")[1].split(",") != want_left:
+        fails.append(corr("reconnect", "senders %s seed %d: frames (connection:session) on the real wire %s; model %s (model schedule %s)" % (case["work"], case["seed"], real_wire, model, sched[:80])))
+    ofails = []
+    for conn, writes in ((1, bottom.writes[:cut]), (2, bottom.writes[cut:])):
+        i = n = 0
+        while i < len(writes):
+            h = writes[i]
+            pl = writes[i + 1] if i + 1 < len(writes) else None
+            what = None
+            if len(h) != 3:
+                what = "write #%d is not a 3-byte length header (%d bytes)" % (i, len(h))
+            elif pl is None:
+                if conn == 2:
+                    what = "a length header without its payload at the end"
+                else:
+                    break       # the connection was lost between a header and its payload: the peer never sees it
+            elif len(pl) != struct.unpack(">I", b"\x00" + h)[0]:
+                what = "the header announces %d bytes, the next write has %d" % (struct.unpack(">I", b"\x00" + h)[0], len(pl))
+            elif pl[:1] != b"\x02" or pl[1] != conn:
+                what = "frame #%d was encrypted for session %s: the peer of this connection cannot decrypt it (and its counter is out of step from here on)" % (n, pl[1] if pl[:1] == b"\x02" else "?")
+            elif struct.unpack(">I", pl[2:6])[0] != n:
+                what = "frame #%d carries cipher counter %d" % (n, struct.unpack(">I", pl[2:6])[0])
+            elif bytes(pl[6:]) not in expected:
+                what = "frame #%d does not decrypt to a stanza that was sent" % n
+            if what:
+                ofails.append(oracle("C11:stale-session-frame" if "session" in what else "C11:frames-not-whole-or-out-of-order", "%s: connection %d: %s" % (ctx, conn, what)))
+                break
+            n += 1
+            i += 2
+        if ofails:
+            break
+    return ofails + fails
+
+
 def run_case(chk, stream, case):
     import random
+    if stream == "reconnect":
+        return run_reconnect(chk, case)
     if stream == "dispatcher":
         return run_dispatcher(chk, case)
     if stream == "preempt":
